@@ -72,6 +72,31 @@ def frame_view(v, img):
     return v.subst(f)
 
 
+def _whole_stack(x, sym):
+    """does x depend on the stack `sym` other than through a frame selected by a loop variable (stack[frame])?"""
+    if isinstance(x, (tuple, list)):
+        return any(_whole_stack(y, sym) for y in x)
+    if not isinstance(x, Rat):
+        return False
+    for a in x.atoms(deep=False):
+        if a == sym:
+            return True
+        if hasattr(a, "base"):
+            if _whole_stack(a.base, sym):
+                return True
+            continue
+        if isinstance(a, Fn):
+            if a.name == "getitem" and len(a.args) == 2:
+                idx = a.args[1]
+                first = idx[0] if isinstance(idx, tuple) and idx and idx[0] != "slice" else idx
+                fa = first.single_atom() if isinstance(first, Rat) else None
+                if isinstance(fa, Sym) and "loopvar" in fa.flags:
+                    continue            # one frame of the stack
+            if any(_whole_stack(y, sym) for y in a.args):
+                return True
+    return False
+
+
 def stack_reductions(v, img):
     """reductions over all axes (axis=None) of something that depends on the stack, except as the
     (never binding) upper bound of clip(x, 0, x.max())"""
@@ -89,7 +114,7 @@ def stack_reductions(v, img):
     def walk_atom(a, exempt):
         if isinstance(a, Fn):
             if a.name in ("max", "min", "sum", "mean", "std", "sort") and len(a.args) >= 2 and a.args[1] is None \
-                    and isinstance(a.args[0], Rat) and a.args[0].depends_on(sym) and not exempt:
+                    and isinstance(a.args[0], Rat) and a.args[0].depends_on(sym) and _whole_stack(a.args[0], sym) and not exempt:
                 out.append(a)
             for i, y in enumerate(a.args):
                 walk(y, exempt or (a.name == "clip" and i == 2))
@@ -151,7 +176,7 @@ def run(rep, tier, root=None):
         nd = Sym("ndim(%s)" % pname)
         for val, truth in CNF.get((fname, conds), ()):
             a = val.single_atom() if isinstance(val, Rat) else None
-            if isinstance(a, Fn) and a.name == "cmp" and a.args[0] == "==" and truth:
+            if isinstance(a, Fn) and a.name == "cmp" and ((a.args[0] == "==" and truth) or (a.args[0] == "!=" and not truth)):
                 l, r_ = a.args[1], a.args[2]
                 if isinstance(r_, Rat) and r_.single_atom() == nd:
                     l, r_ = r_, l
@@ -325,6 +350,21 @@ def bp2(img, threshold):
     else:
         rep.unknown("H5.cross-correlation", f.fq, "several paths", f.where())
     f, rets, I = forms["correlation_centroid"]
+    # a stack must be processed frame by frame: on the stack path no reduction may run over the whole stack
+    n_stack = 0
+    for conds, v in rets:
+        if v is None:
+            continue
+        rk = rank_of("correlation_centroid", conds, "im")
+        if rk == 2:
+            continue
+        n_stack += 1
+        mixed = stack_reductions(v, "im")
+        rep.check(not mixed, "H2.per-frame-reductions", "%s[%s]: reductions act per frame" % (f.fq, "; ".join(conds) or "stack path"),
+                  "reduction over the whole stack mixes frames: %s - frame k is processed with a statistic of the other frames, so a stack does "
+                  "not give the centroids of its frames" % [repr(a)[:60] for a in mixed][:3], f.where())
+    if not n_stack:
+        rep.unknown("H2.per-frame-reductions", f.fq, "no stack path found", f.where())
     offs = [s for s in I.store_log if s[0] == f.fq and s[5] == "="]
     # cx -= nx/2*(padding-1): recorded as assignments to the tuple stored in centroids[:, frame]
     n_ok = 0
